@@ -94,6 +94,8 @@ CONTEXTS: list[tuple[str, str, bool, tuple[str, ...]]] = [
     ("({x})?", "y", False, ()),
     ('PUSH("a") ~ {x}', "n", False, ()),
     ('PUSH_LITERAL("b") ~ PUSH("a") ~ {x}', "n", False, ()),
+    # two entries on the stack and nothing consumed yet: the stack is matched at the very position parsing began
+    ('PUSH_LITERAL("b") ~ PUSH_LITERAL("a") ~ {x} ~ "b"?', "x", False, ()),
     ('({x} ~ "b") | {x}', "x", False, ()),
     ("nb ~ {x} ~ nb", "n", False, ("nb",)),
 ]
@@ -464,6 +466,22 @@ def opt_cases(seed: int, n: int) -> list[dict]:
 
 
 # --------------------------------------------------------------------------- stack histories as grammars
+
+def squash_order_cases() -> list[dict]:
+    """Deterministic: every ordered pair, and a fixed slice of the ordered triples, of squashable alternatives
+    (sensitive / insensitive, one or more characters, prefixes of each other, a range): the regex the optimizer
+    builds groups alternatives, so each order must either be refused or pick the same alternative."""
+    pool = ['"a"', '"ab"', '"abc"', '^"a"', '^"ab"', '^"AB"', '^"abc"', "'a'..'c'", '"b"', '"bc"', '^"B"']
+    cases = []
+    combos = [(x, y) for x in pool for y in pool if x != y]
+    tri = [(x, y, z) for x in pool[:8] for y in pool[:8] for z in pool[:8] if len({x, y, z}) == 3]
+    combos += tri[::3]
+    for alts in combos:
+        g = f'start = {{ w ~ "c"? }}\nw = {{ {" | ".join(alts)} }}\n'
+        cases.append({"family": "OPT", "label": "order of squashable alternatives", "grammar": g, "rules": ["start", "w"],
+                      "alphabet": "abcAB", "maxlen": 3, "starts": "zero", "passes": None})
+    return cases
+
 
 def skip_trivia_cases() -> list[dict]:
     """Deterministic product: every trivia configuration x rule modifier x stop shape for (!stop ~ ANY)*,
